@@ -71,6 +71,10 @@ fn check_id(id: u32, out: &mut CaseOut) {
         "u32_conversions",
         || format!("from_u32/as_u32/From<u32>/to_usize disagree for {id}"),
     );
+    // the other integer widths
+    let wide = HpoTermId::from(u64::from(id)).as_u32() == id && HpoTermId::from(id as usize).as_u32() == id;
+    let narrow = u16::try_from(id).map_or(true, |n| HpoTermId::from(n).as_u32() == id);
+    out.check(wide && narrow, "C20", "integer_conversions", || format!("From<u64>/From<usize>/From<u16> disagree with from_u32 for {id}"));
 }
 
 #[derive(PartialEq, Debug)]
